@@ -138,6 +138,19 @@ fn rejected_inputs(spec: &CoreSpec, f: &F, view: &View) -> Vec<(usize, Ev, Res)>
     if cfg.gossip.is_none() {
         bads.push(Cfg { gossip: Some((500, 1)), ..cfg.clone() });
     }
+    // compound: a forbidden change together with legal changes of other
+    // fields (nothing of a rejected configuration may be taken over)
+    let simple = bads.clone();
+    for b in &simple {
+        bads.push(Cfg { max_packet: cfg.max_packet + 7, max_tx: cfg.max_tx + 1, notify_down: !cfg.notify_down, fanout: cfg.fanout + 1, ..b.clone() });
+        if cfg.announce.is_some() && b.announce == cfg.announce {
+            bads.push(Cfg { announce: None, ..b.clone() });
+            bads.push(Cfg { announce: Some((777, 2)), ..b.clone() });
+        }
+        if cfg.gossip.is_some() && b.gossip == cfg.gossip {
+            bads.push(Cfg { gossip: None, ..b.clone() });
+        }
+    }
     for bc in bads {
         v.push((14, Ev::SetConfig(Box::new(bc)), Res::Err(ErrKind::InvalidConfig)));
     }
@@ -307,9 +320,11 @@ pub fn c17_specs(tier: &str) -> Vec<(C17Spec, Limits)> {
     let th = tier == "thorough";
     let words = crate::rng::menu(4, 3);
     let mut out = Vec::new();
-    for (pol, packet) in [(Renew::Next, 60usize), (Renew::None, 1400)] {
+    // third variant: one periodic task on, the others off (a rejected
+    // configuration may combine switching one off with enabling another)
+    for (pol, packet, periodic) in [(Renew::Next, 60usize, false), (Renew::None, 1400, false), (Renew::Next, 200, true)] {
         let me = id(A, 1).with(pol);
-        let cfg = Cfg { max_packet: packet, notify_down: true, ..Cfg::default() };
+        let cfg = Cfg { max_packet: packet, notify_down: true, announce: periodic.then_some((500, 1)), ..Cfg::default() };
         let mut base = CoreSpec::new(&format!("c17-{pol:?}-pkt{packet}"), me, cfg);
         base.words = words.clone();
         base.alpha = Alpha {
